@@ -131,6 +131,17 @@ def run_case(case):
         return _pack(bad, 'values/%s/%s/%s' % (name, case['family'], shape), cov,
                      {'kind': 'values', 'limiter': name, 'family': case['family'], 'shape': shape, 'r_head': to_list(r[:6])},
                      {'limiter': name, 'family': case['family'], 'shape': shape})
+    if kind == 'eps':
+        name = case['name']
+        bad = []
+        for eps in (2e-16, 1e-12, 1e-300):
+            buf = io.StringIO()
+            with redirect_stdout(buf):
+                FL = pf.fluxLimiter(name, eps)
+            bad += check_values(name, FL, r_batch(rng, 'special'))
+            cov['fl_calls'] = cov.get('fl_calls', 0) + 1
+        bad = [(name + '/eps-arg/' + m_, s_) for m_, s_ in bad]
+        return _pack(bad, 'eps/' + name, cov, {'kind': 'eps', 'limiter': name}, {'limiter': name})
     if kind == 'unknown':
         name = case['name']
         FL, printed = get_FL(name)
@@ -217,6 +228,7 @@ def plan(tier, seed):
                     cases.append({'kind': 'values', 'name': name, 'family': fam, 'shape': shape, 'seed': [seed, 13, i, rep]})
                     i += 1
         chunks.append(cases)
+    chunks.append([{'kind': 'eps', 'name': nm, 'seed': [seed, 13, 998, j]} for j, nm in enumerate(LIMITERS)])
     chunks.append([{'kind': 'unknown', 'name': nm, 'seed': [seed, 13, 999, j]}
                    for j, nm in enumerate(['superbee', 'NoSuchLimiter', '', 'minmod', 'VANLEER', 'Van Leer'])])
     Ns = [1, 2, 3] if tier == 'quick' else [1, 2, 3, 4, 5]
